@@ -282,6 +282,14 @@ func c18CliCodes(scens []twins.Scenario, keys map[string]int, n int, views uint8
 	return gList(evs)
 }
 
+func c18CliCodeOf(s twins.Scenario, keys map[string]int, n int) uint64 {
+	code := uint64(0)
+	for _, vw := range s {
+		code = code*uint64(n) + uint64(keys[c18CliViewKey(vw)])
+	}
+	return code
+}
+
 func c18CliQuiet(f func()) (panicMsg string) {
 	devnull, err := os.OpenFile(os.DevNull, os.O_WRONLY, 0)
 	if err == nil {
@@ -363,21 +371,36 @@ func c18CliPartial(v *verifOut, dir string, st *verifStream) {
 // `twins run`: every scenario of the source is executed once, in order; with --log-all all of them are
 // written, without it exactly the scenarios whose execution diverged
 func c18CliRun(v *verifOut, dir string, st *verifStream) {
-	// (a) generator source, --log-all
-	for i, c := range [][4]uint8{{4, 0, 1, 2}, {4, 1, 2, 1}, {3, 0, 2, 1}} {
-		nn, nt, p, views := c[0], c[1], c[2], c[3]
+	// (a) generator source, --log-all, one and several workers (also when the number of scenarios is not a
+	// multiple of the number of workers): every announced scenario is executed exactly once
+	type runCfg struct {
+		c       [4]uint8
+		workers uint
+	}
+	var cfgs []runCfg
+	for _, c := range [][4]uint8{{4, 0, 1, 2}, {4, 1, 2, 1}, {3, 0, 2, 1}} {
+		cfgs = append(cfgs, runCfg{c, 1})
+	}
+	for _, w := range []uint{2, 3, 5, 7} {
+		cfgs = append(cfgs, runCfg{[4]uint8{4, 0, 2, 1}, w}, runCfg{[4]uint8{4, 0, 1, 2}, w})
+	}
+	for i, rc := range cfgs {
+		nn, nt, p, views := rc.c[0], rc.c[1], rc.c[2], rc.c[3]
 		keys, n := c18CliOptions(nn, nt, p)
 		settings := twins.Settings{NumNodes: nn, NumTwins: nt, Partitions: p, Views: views, Ticks: 4}
 		announced := twins.NewGenerator(c18CliNop{}, settings).Remaining()
-		meta := map[string]any{"num_nodes": nn, "num_twins": nt, "partitions": p, "views": views, "announced": announced, "mode": "run --log-all"}
+		meta := map[string]any{"num_nodes": nn, "num_twins": nt, "partitions": p, "views": views, "announced": announced, "mode": "run --log-all", "concurrency": rc.workers}
 		dest := filepath.Join(dir, fmt.Sprintf("run%d.json", i))
 		numReplicas, numTwins, numPartitions, numViews = nn, nt, p, views
 		numScenarios, numScenariosPerFile, numTicks = 0, 0, 4
 		shuffle, randSeed, twinsDest, twinsSrc = false, 0, dest, ""
-		twinsConsensus, logAll, concurrency = "chainedhotstuff", true, 1
+		twinsConsensus, logAll, concurrency = "chainedhotstuff", true, rc.workers
 		msg := c18CliQuiet(twinsRun)
-		numScenarios, logAll = 0, false
+		numScenarios, logAll, concurrency = 0, false, 1
 		v.Count("cli_run_generator")
+		if rc.workers > 1 {
+			v.Count("cli_run_concurrent")
+		}
 		v.Seen(fmt.Sprintf("cli run %v", meta), true, meta)
 		if msg != "" {
 			meta["panic"] = msg
@@ -388,7 +411,17 @@ func c18CliRun(v *verifOut, dir string, st *verifStream) {
 		meta["written"] = len(scens)
 		v.Oracle(ok, "cli.run:unreadable-output", "the written JSON cannot be read back", meta)
 		v.Oracle(int64(len(scens)) == announced, "cli.run:executed-count-differs-from-announced",
-			fmt.Sprintf("%d scenarios announced, %d executed and logged by `twins run --log-all`", announced, len(scens)), meta)
+			fmt.Sprintf("%d scenarios announced, %d executed and logged by `twins run --log-all --concurrency %d`", announced, len(scens), rc.workers), meta)
+		if rc.workers > 1 {
+			// the workers finish in any order; the unshuffled generator's order is ascending in the
+			// base-n code of the scenario, so sorting the written scenarios restores it
+			sort.SliceStable(scens, func(a, b int) bool { return c18CliCodeOf(scens[a], keys, n) < c18CliCodeOf(scens[b], keys, n) })
+			distinct := map[uint64]bool{}
+			for _, sc := range scens {
+				distinct[c18CliCodeOf(sc, keys, n)] = true
+			}
+			v.Oracle(len(distinct) == len(scens), "cli.run:scenario-executed-twice", "a scenario was executed and logged more than once", meta)
+		}
 		v.Case(st, fmt.Sprintf("(%s,%s,None,%s)", gNat(n), gNat(int(views)), c18CliCodes(scens, keys, n, views, announced)), meta)
 	}
 
